@@ -105,7 +105,7 @@ TMergeNone ==
   /\ res' = NoRes
 
 TReopen == pend = {} /\ UNCHANGED pend /\ IsEv("Reopen") /\ ev.err = "" /\ Reopen(ev.r, ev.loaders) /\ StateMatches(ev) /\ UNCHANGED digests
-TDeleteClocks == pend = {} /\ UNCHANGED pend /\ IsEv("DeleteClocks") /\ DeleteClocks(ev.r) /\ StateMatches(ev) /\ UNCHANGED digests
+TDeleteClocks == pend = {} /\ UNCHANGED pend /\ IsEv("DeleteClocks") /\ DeleteClocks(ev.r, ev.b) /\ StateMatches(ev) /\ UNCHANGED digests
 
 TraceNext == TMergeBegin \/ TMergeEnd \/ Reset \/ TNewBug \/ TEdit \/ TRead \/ TPush \/ TFetch \/ TMerge \/ TMergeNone \/ TReopen \/ TDeleteClocks
 
